@@ -74,6 +74,15 @@ CHECKS["C11"] = (
     "DESIGN.md section 3, C11",
 )
 
+CHECKS["C06"] = (
+    "bounded-exhaustive enumeration of JSON-representable interfaces on the implementation; jsonschema meta-schema + reference-model oracle",
+    "All interfaces with 0-3 parameters over 15 type shapes (thorough 4) plus covering sequences of 4-8 parameters are emitted; each schema is "
+    "serialised, checked against the draft 2020-12 meta-schema, its required list compared with Optional-ness, every default validated "
+    "against its own property schema, every Literal pattern probed with members and near-misses, and parsed back and compared.",
+    "jsonschema's Draft202012Validator and re.search are trusted; the return entry is not compared on the way back",
+    "DESIGN.md section 3, C06",
+)
+
 PENDING_REASON = "check not built yet in this revision (planned, see DESIGN.md section 3); no claim is made"
 
 
